@@ -4,7 +4,11 @@ package h
 // (DESIGN.md §4 C12).
 
 import (
+	"bytes"
 	"fmt"
+	"os"
+	"path/filepath"
+	"strings"
 
 	"github.com/rminnich/go9p"
 	"github.com/rminnich/go9p/vsim/rt"
@@ -31,6 +35,15 @@ func c12Gen(seed uint64, run int, tier string) *Case {
 	c.Cfg["maxsteps"] = 2000000
 	c.Cfg["maxpend"] = int64(r.Pick(0, 2, 64))
 	k := run / 4
+	if run%20 == 11 {
+		c.Stratum = "ufs-read-count"
+		c.Cfg["ufsread"] = 1
+		c.Cfg["cmsize"] = int64(r.Pick(256, 512, 1024, 4096, 8192))
+		c.Cfg["smsize"] = int64(r.Pick(512, 8192))
+		c.Cfg["dotu"] = int64(r.Intn(2))
+		c.Cfg["nfiles"] = int64(r.Pick(0, 1, 2, 5, 9, 30))
+		return c
+	}
 	switch run % 4 {
 	case 0, 1: // negotiation grid + battery / bad frames
 		sm := c12SrvMsizes[k%len(c12SrvMsizes)]
@@ -84,7 +97,105 @@ type c12Sys struct {
 	errLen  map[uint32]int
 }
 
+// c12UfsRead: the real Unix file server answers Treads of files and directories with every kind of count: no reply
+// carries more data than its Tread asked for, and none is longer than the negotiated msize.
+func c12UfsRead(x *Ctx) {
+	c := x.C
+	u := NewUfsSys(x, uint32(c.cfg("smsize")), true, 2, 0)
+	if u == nil {
+		return
+	}
+	defer u.Cleanup()
+	r := NewRand(c.Seed ^ 0xC12F)
+	os.WriteFile(filepath.Join(u.Root, "data"), bytes.Repeat([]byte("0123456789abcdef"), 700), 0o644)
+	os.MkdirAll(filepath.Join(u.Root, "d"), 0o755)
+	for i := int(c.cfg("nfiles")); i > 0; i-- {
+		os.WriteFile(filepath.Join(u.Root, "d", fmt.Sprintf("entry-%d-%s", i, strings.Repeat("x", r.Intn(30)))), []byte("x"), 0o644)
+	}
+	sc := u.Raw(int(c.cfg("seg")))
+	p := sc.Peer
+	finished := false
+	rt.Go(rt.SiteSpawn, func() {
+		rt.SetName("raw-client")
+		ver := "9P2000"
+		if c.cfg("dotu") != 0 {
+			ver = "9P2000.u"
+		}
+		vr := p.Call(&Msg{Type: Tversion, Tag: NOTAG, Msize: uint32(c.cfg("cmsize")), Version: ver})
+		if vr == nil || vr.M == nil || vr.M.Type != Rversion {
+			x.Violate("setup", "Tversion failed")
+			return
+		}
+		nm := vr.M.Msize
+		tag := uint16(0)
+		call := func(m *Msg) *Msg {
+			tag++
+			m.Tag = tag
+			rr := p.Call(m)
+			if rr == nil || rr.M == nil {
+				x.Violate("m0-stalled", "%s got no reply", m)
+				return nil
+			}
+			if uint32(len(rr.Raw)) > nm {
+				x.Violate("m2-oversize-reply", "after negotiating msize %d the file server sent a %d-byte %s", nm, len(rr.Raw), TypeName(rr.Raw[4]))
+			}
+			return rr.M
+		}
+		if m := call(&Msg{Type: Tattach, Fid: 0, Afid: NOFID, Uname: "root", Nuname: 0}); m == nil || m.Type != Rattach {
+			x.Violate("setup", "Tattach failed")
+			return
+		}
+		for fi, names := range [][]string{{"data"}, {"d"}, nil} {
+			fid := uint32(fi + 1)
+			if m := call(&Msg{Type: Twalk, Fid: 0, Newfid: fid, Wname: names}); m == nil || m.Type != Rwalk {
+				return
+			}
+			if m := call(&Msg{Type: Topen, Fid: fid, Mode: 0}); m == nil || m.Type != Ropen {
+				return
+			}
+			off := uint64(0)
+			for k := 0; k < 12; k++ {
+				cnt := uint32(r.Pick(0, 1, 7, 40, 60, 61, 80, 100, 200, 231, 232, 300, 1000, int(nm)-25, int(nm)-24))
+				if int64(cnt) > int64(nm)-24 {
+					cnt = nm - 24
+				}
+				if names != nil && names[0] == "data" && r.Pct(50) {
+					off = uint64(r.Intn(11000))
+				}
+				m := call(&Msg{Type: Tread, Fid: fid, Offset: off, Count: cnt})
+				if m == nil {
+					return
+				}
+				if m.Type == Rread {
+					if uint32(len(m.Data)) > cnt {
+						x.Violate("m4-more-than-asked", "Tread of %v at offset %d asking for %d bytes was answered with %d bytes", names, off, cnt, len(m.Data))
+					}
+					off += uint64(len(m.Data))
+					x.Probe("ufs-read-answered")
+					if len(m.Data) == 0 && (names == nil || names[0] != "data") {
+						off = 0 // the listing is through: start again
+					}
+				} else if names == nil || names[0] != "data" {
+					x.Probe("ufs-directory-read-refused") // count too small for the next entry
+				}
+			}
+		}
+		finished = true
+	})
+	if !x.Run() {
+		return
+	}
+	u.CountFaults()
+	if !finished && len(x.Res.Viol) == 0 {
+		x.Violate("m0-stalled", "the session did not finish")
+	}
+}
+
 func c12Exec(x *Ctx) {
+	if x.C.cfg("ufsread") != 0 {
+		c12UfsRead(x)
+		return
+	}
 	if x.C.cfg("client") != 0 {
 		c12Client(x)
 		return
@@ -345,12 +456,12 @@ func (st *c12Sys) battery(peer *ClntPeer, nm int64, fidBase uint32) {
 		return
 	}
 	// Rstat close to and beyond the limit
-	base := 7 + 2 + 2 + 41 + 2 + 2 + 3 + 2 + 3 + 2 + 4
+	base := 7 + 2 + 2 + 39 + 2 + 2 + 3 + 2 + 3 + 2 + 4 // header, nstat, size, fixed fields, name, "uid", "gid", "muid"
 	if peer.Dotu {
 		base += 2 + 12
 	}
 	tag := uint16(20)
-	for _, frame := range []int64{0, nm - 1, nm, nm + 1, 2 * nm, nm + 4000} {
+	for _, frame := range []int64{0, nm - 1, nm, nm + 1, nm + 9, nm + 14, nm + 15, 2 * nm, nm + 4000} {
 		l := int(frame) - base
 		if l < 0 {
 			l = 0
@@ -364,6 +475,9 @@ func (st *c12Sys) battery(peer *ClntPeer, nm int64, fidBase uint32) {
 			fits := int64(base+maxInt(l, 7)) <= nm
 			if fits && r.M.Type != Rstat {
 				x.Violate("m2-fitting-reply-refused", "an Rstat of %d bytes fits msize %d but the server answered %s", base+maxInt(l, 7), nm, r.M)
+			}
+			if !fits && r.M.Type == Rstat && int64(len(r.Raw)) != int64(base+maxInt(l, 7)) {
+				x.Violate("m3-stat", "the Rstat the implementation gave takes %d bytes in the negotiated dialect, a frame of %d bytes was sent", base+maxInt(l, 7), len(r.Raw))
 			}
 			if r.M.Type == Rstat {
 				x.Probe("rstat-sent")
